@@ -22,18 +22,19 @@ import (
 // (momentums only), both in lockstep; F3 (one batch with the whole chain) is created at the end.
 
 type cluster struct {
-	c        *xs.Ctx
-	r        *xs.Result
-	it       item
-	P, F1    *vnode.Node
-	F2       *vnode.Node
-	gossiped map[types.Hash]bool
-	failed   bool // a violation that makes continuing meaningless was reported
-	seq      int
+	c         *xs.Ctx
+	r         *xs.Result
+	it        item
+	P, F1     *vnode.Node
+	F2        *vnode.Node
+	gossiped  map[types.Hash]bool
+	restartAt map[uint64]bool
+	failed    bool // a violation that makes continuing meaningless was reported
+	seq       int
 }
 
 func newCluster(c *xs.Ctx, r *xs.Result, it item) *cluster {
-	x := &cluster{c: c, r: r, it: it, gossiped: map[types.Hash]bool{}}
+	x := &cluster{c: c, r: r, it: it, gossiped: map[types.Hash]bool{}, restartAt: map[uint64]bool{}}
 	x.P = vnode.New(vnode.Options{Dir: c.TempDir()})
 	x.F1 = vnode.New(vnode.Options{Dir: c.TempDir(), NoPillars: true})
 	x.F2 = vnode.New(vnode.Options{Dir: c.TempDir(), NoPillars: true})
@@ -92,6 +93,12 @@ func (x *cluster) step() {
 				fmt.Sprintf("follower F%d refuses momentum %d (%d blocks): idx=%d err=%v panic=%v", i+1, h, len(d.AccountBlocks), idx, err, pan))
 			x.failed = true
 			return
+		}
+		if i == 1 && x.restartAt[h] {
+			// F2 restarts (cold caches, chain.Init re-checks the implemented sporks) right at an enforcement height
+			f.Restart()
+			x.r.Count("transitions", 1)
+			x.r.Count("follower_restarts_at_enforcement_height", 1)
 		}
 		x.r.Count("follower_digest_comparisons", 1)
 		if fd := f.FullDigest(); fd != pd {
@@ -323,7 +330,11 @@ func (x *cluster) probeAll(ackH uint64, E []uint64, only int) []probe {
 		if expected {
 			rel = "at/above"
 		}
-		what := fmt.Sprintf("%s acknowledging height %d (frontier %d; own spork %s enforced from %d => %s)", kind.Name, ackH, frontier, featNames[kind.Spork], own, rel)
+		ownStr := fmt.Sprintf("enforced from %d => %s", own, rel)
+		if own == 0 {
+			ownStr = "not activated on this chain"
+		}
+		what := fmt.Sprintf("%s acknowledging height %d (frontier %d; own spork %s %s)", kind.Name, ackH, frontier, featNames[kind.Spork], ownStr)
 		x.r.Add("probe_classes", fmt.Sprintf("%s|ack-E=%s|lag=%v|%v", kind.Name, relStr(ackH, own), frontier > ackH, v.Accepted))
 		x.checkPaths(what, v)
 		switch {
@@ -354,8 +365,8 @@ func (x *cluster) probeAll(ackH uint64, E []uint64, only int) []probe {
 				}
 			}
 			if enabler >= 0 {
-				x.r.Add("cumulative_table_manifestations", fmt.Sprintf("%s enforced => %s available", featNames[enabler], kind.Name))
-				x.violate("C17:regime-table-of-one-spork-enables-methods-of-unenforced-spork",
+				x.r.Add("cumulative_table_manifestations", fmt.Sprintf("%s spork enforced, %s spork not => %s available", featNames[enabler], featNames[kind.Spork], kind.Name))
+				x.violate(keyCumulative,
 					fmt.Sprintf("%s is ACCEPTED: the %s spork is enforced (from %d) and its method table contains the methods gated by the %s spork",
 						what, featNames[enabler], E[enabler], featNames[kind.Spork]))
 			} else {
@@ -447,10 +458,13 @@ func runGate(c *xs.Ctx, r *xs.Result, it item) {
 	defer x.destroy()
 	delay := constants.SporkMinHeightDelay
 
-	// creation (all three in the first momentum), ids bound immediately, as the repository's tests do
+	// creation (all in the first momentum), ids bound immediately, as the repository's tests do; a feature that is not in
+	// Order has no spork at all on this chain (its binding keeps the id the binary ships with)
 	creation := append([]int{}, it.Order...)
 	if it.CreateRev {
-		creation[0], creation[2] = creation[2], creation[0]
+		for i, j := 0, len(creation)-1; i < j; i, j = i+1, j-1 {
+			creation[i], creation[j] = creation[j], creation[i]
+		}
 	}
 	ids := make([]types.Hash, 3)
 	for _, f := range creation {
@@ -459,8 +473,8 @@ func runGate(c *xs.Ctx, r *xs.Result, it item) {
 		bind(f, b.Hash, true)
 	}
 	x.step()
-	x.step() // height 3: the three sporks exist, none activated
-	if l := sporkList(x.P); len(l) != 3 {
+	x.step() // height 3: the sporks exist, none activated
+	if l := sporkList(x.P); len(l) != len(it.Order) {
 		panic(fmt.Sprintf("%s: %d sporks after creation", it, len(l)))
 	}
 
@@ -473,6 +487,7 @@ func runGate(c *xs.Ctx, r *xs.Result, it item) {
 		h := first + uint64(i*it.Spacing)
 		actAt[h] = f
 		E[f] = h + 1 + delay
+		x.restartAt[E[f]] = true
 		if E[f] > maxE {
 			maxE = E[f]
 		}
